@@ -252,7 +252,7 @@ def to_str(I, v):
     if isinstance(v, enum.Enum):
         m = I.find_method(type(v), '__str__')
         if m is not None:
-            raise Unsupported('user-defined Enum.__str__ (use contract)')
+            return I.call(m, [v], {})
         return str(v)
     if v is None or isinstance(v, (bool, int, float)):
         return str(v)
@@ -321,15 +321,70 @@ def m_int(I, args, kw):
     nonneg = z3.InRe(s, digits)
     neg = z3.InRe(s, z3.Concat(z3.Re('-'), digits))
     other = z3.And(z3.Not(nonneg), z3.Not(neg))
-    i = I.ctx.choose([nonneg, neg, other, other], 'int(str)')
+    key = ('int', s.get_id())
+    if key in I.ctx.memo:
+        i = I.ctx.memo[key]
+    else:
+        i = I.ctx.choose([nonneg, neg, other], 'int(str)')
+        if i == 2:
+            i = 2 if I.ctx.branch(mk(INT_OK(s), 'bool')) else 3
+        I.ctx.memo[key] = i
+    # the value is always the term int_val(s); on the exact fragment it is tied to z3's str.to_int by an assumed equality
+    # (so code and specification talk about the same atoms and the numeric part is plain linear arithmetic)
     if i == 0:
-        return mk(z3.StrToInt(s), 'int')
+        I.ctx.assume(z3.And(INT_OK(s), INT_VAL(s) == z3.StrToInt(s)))
+        return mk(INT_VAL(s), 'int')
     if i == 1:
-        return mk(-z3.StrToInt(z3.SubString(s, 1, z3.Length(s) - 1)), 'int')
-    if i == 2:
+        r = I.ctx.fresh('int_digits', 'str').t
+        I.ctx.assume(z3.And(s == z3.Concat(z3.StringVal('-'), r), z3.InRe(r, digits), INT_OK(s),
+                            INT_VAL(s) == -z3.StrToInt(r)))
+        return mk(INT_VAL(s), 'int')
+    if i == 3:
         I.raise_(ValueError, 'invalid literal for int()')
     I.ctx.notes.append('int(str) outside the exact fragment: result uninterpreted')
-    return I.ctx.fresh('int_of_str', 'int')
+    return mk(INT_VAL(s), 'int')
+
+
+INT_OK = z3.Function('int_ok', z3.StringSort(), z3.BoolSort())
+INT_VAL = z3.Function('int_val', z3.StringSort(), z3.IntSort())
+
+
+def _oracle_int_ok(s):
+    try:
+        int(s)
+        return True
+    except ValueError:
+        return False
+
+
+def _oracle_int_val(s):
+    try:
+        return int(s)
+    except ValueError:
+        return None
+
+
+def _oracle_json_valid(s):
+    try:
+        json.loads(s)
+        return True
+    except ValueError:
+        return False
+
+
+def oracle_seeds():
+    """arguments on which the real function is known to answer True (valid JSON texts of various lengths)"""
+    return {JSON_VALID.name(): ['{}', '[]', '0', '""'] + ['[' + ' ' * n + ']' for n in (1020, 1023, 1030, 2044, 2047, 2050, 4092, 4095, 4100)],
+            INT_OK.name(): [' 7', '+7', '07', '0_7', '7\n', ' -1 ', '123\n', '1-2']}
+
+
+# uninterpreted functions that stand for a real python function: used ONLY to steer counter-models and cross-check
+# models towards what CPython really does (never in the proof direction)
+def oracles():
+    return {INT_OK.name(): (INT_OK, _oracle_int_ok), INT_VAL.name(): (INT_VAL, _oracle_int_val),
+            JSON_VALID.name(): (JSON_VALID, _oracle_json_valid),
+            SPLIT_BEFORE.name(): (SPLIT_BEFORE, lambda s, sep: s.split(sep)[0] if sep in s else None),
+            SPLIT_AFTER.name(): (SPLIT_AFTER, lambda s, sep: s.split(sep, 1)[1] if sep in s else None)}
 
 
 @model(builtins.float)
@@ -777,23 +832,43 @@ def str_split(I, s, args, kw):
     ctx.trust('str.split(sep): exact for 0, 1 or 2 occurrences of a one-character separator; more: unsupported')
     st = s.t
     sp = z3.StringVal(sep)
-    a = ctx.fresh('sp_a', 'str').t
-    b = ctx.fresh('sp_b', 'str').t
-    c = ctx.fresh('sp_c', 'str').t
-    nos = lambda x: z3.Not(z3.Contains(x, sp))
-    c0 = nos(st)
-    c1 = z3.And(st == z3.Concat(a, sp, b), nos(a), nos(b))
-    c2 = z3.And(st == z3.Concat(a, sp, b, sp, c), nos(a), nos(b), nos(c))
-    many = z3.And(z3.Not(c0), z3.Not(z3.Exists([a, b], z3.And(st == z3.Concat(a, sp, b), nos(a), nos(b)))),
-                  z3.Not(z3.Exists([a, b, c], z3.And(st == z3.Concat(a, sp, b, sp, c), nos(a), nos(b), nos(c)))))
-    i = ctx.choose([c0, c1, c2, many], 'split')
+    nosep = nosep_re(sep)
+    one = z3.Re(sp)
+    c0 = z3.InRe(st, nosep)
+    c1 = z3.InRe(st, z3.Concat(nosep, one, nosep))
+    c2 = z3.InRe(st, z3.Concat(nosep, one, nosep, one, nosep))
+    many = z3.InRe(st, z3.Concat(nosep, one, nosep, one, nosep, one, z3.Full(z3.ReSort(z3.StringSort()))))
+    key = ('split', st.get_id(), sep)
+    if key in ctx.memo:
+        i = ctx.memo[key]
+    else:
+        i = ctx.memo[key] = ctx.choose([c0, c1, c2, many], 'split')
     if i == 0:
         return PList([s])
+    a, r = SPLIT_BEFORE(st, sp), SPLIT_AFTER(st, sp)
+    ctx.assume(z3.And(st == z3.Concat(a, sp, r), z3.InRe(a, nosep)))
     if i == 1:
-        return PList([mk(a, 'str'), mk(b, 'str')])
+        ctx.assume(z3.InRe(r, nosep))
+        return PList([mk(a, 'str'), mk(r, 'str')])
     if i == 2:
+        b, c = SPLIT_BEFORE(r, sp), SPLIT_AFTER(r, sp)
+        ctx.assume(z3.And(r == z3.Concat(b, sp, c), z3.InRe(b, nosep), z3.InRe(c, nosep)))
         return PList([mk(a, 'str'), mk(b, 'str'), mk(c, 'str')])
     raise Unsupported('split: more than two separators')
+
+
+# split_before(s, sep) = s.split(sep)[0]   split_after(s, sep) = s.split(sep, 1)[1]   (when sep occurs in s)
+SPLIT_BEFORE = z3.Function('split_before', z3.StringSort(), z3.StringSort(), z3.StringSort())
+SPLIT_AFTER = z3.Function('split_after', z3.StringSort(), z3.StringSort(), z3.StringSort())
+
+
+def nosep_re(sep):
+    cp = ord(sep)
+    rs = []
+    if cp > 0:
+        rs.append((0, cp - 1))
+    rs.append((cp + 1, Z3_MAXCHAR))
+    return z3.Star(_ranges_to_re(rs))
 
 
 def concat_str(I, parts):
@@ -1221,12 +1296,16 @@ def m_json_loads(I, args, kw):
         s = narrow(I, s)
     if is_sym(s) and s.k == 'str':
         # arbitrary text: either not JSON (JSONDecodeError) or some JSON value nobody may look into
-        I.ctx.trust('json.loads(arbitrary text): either raises JSONDecodeError or returns an unconstrained value')
-        bad = I.ctx.fresh('json_invalid', 'bool')
-        if I.ctx.branch(bad):
+        I.ctx.trust('json.loads(arbitrary text): raises JSONDecodeError iff not json_valid(text), else returns json_value(text) '
+                    '(both uninterpreted functions of the text)')
+        if not I.ctx.branch(mk(JSON_VALID(s.t), 'bool')):
             raise _interp_mod().PyRaise(PObj(json.JSONDecodeError, {'args': ('invalid',)}))
-        return I.ctx.fresh('json_value', 'U')
+        return mk(JSON_VALUE(s.t), 'U')
     I.raise_(TypeError, 'the JSON object must be str, bytes or bytearray')
+
+
+JSON_VALID = z3.Function('json_valid', z3.StringSort(), z3.BoolSort())
+JSON_VALUE = z3.Function('json_value', z3.StringSort(), V)
 
 
 def jsontext_len(I, jt):
@@ -1301,29 +1380,67 @@ def same_json_scalar(a, b):
 
 
 # =========================================================================================== re
-_UNICODE_CLASS_CACHE = {}
+# ---- minterm abstraction of the non-ASCII part of the alphabet -------------------------------------------------------
+# The verified code looks at strings only through: regex membership with the classes \d \w \s (and ASCII literals/ranges),
+# length, comparison with ASCII constants, split on an ASCII separator and int().  All of these are invariant under the map
+# that sends every non-ASCII code point to the representative of its block, where blocks are the equivalence classes of
+# (is \d, is \w, is \s) computed WITH THE REAL re ENGINE over all code points.  So it is sound (and complete) to let symbolic
+# strings range over  ASCII + one representative per block;  large Unicode classes then become a handful of ranges
+# (z3 answered `unknown`/hung on the 746 ranges of \w).
+_ABS = None
+
+
+def abs_alphabet():
+    global _ABS
+    if _ABS is not None:
+        return _ABS
+    rd, rw, rs = _re.compile(r'\d'), _re.compile(r'\w'), _re.compile(r'\s')
+    blocks = {}
+    for cp in range(128, 0x110000):
+        if 0xD800 <= cp <= 0xDFFF:
+            continue
+        c = chr(cp)
+        sig = (rd.match(c) is not None, rw.match(c) is not None, rs.match(c) is not None)
+        if sig not in blocks and cp <= Z3_MAXCHAR:
+            blocks[sig] = cp
+        elif sig not in blocks:
+            raise Unsupported(f'unicode block {sig} has no representative <= U+2FFFF')
+    ascii_sig = {}
+    for cp in range(128):
+        c = chr(cp)
+        ascii_sig[cp] = (rd.match(c) is not None, rw.match(c) is not None, rs.match(c) is not None)
+    _ABS = dict(blocks=blocks, ascii=ascii_sig)
+    return _ABS
+
+
 Z3_MAXCHAR = 0x2FFFF
 
 
+def abs_map(s):
+    """the abstraction map on concrete strings: non-ASCII code points -> representative of their block"""
+    A = abs_alphabet()
+    rd, rw, rs = _re.compile(r'\d'), _re.compile(r'\w'), _re.compile(r'\s')
+    out = []
+    for c in s:
+        if ord(c) < 128:
+            out.append(c)
+        else:
+            sig = (rd.match(c) is not None, rw.match(c) is not None, rs.match(c) is not None)
+            out.append(chr(A['blocks'][sig]))
+    return ''.join(out)
+
+
+def abs_alphabet_re():
+    A = abs_alphabet()
+    return z3.Star(_ranges_to_re(_merge([(0, 127)] + [(cp, cp) for cp in A['blocks'].values()])))
+
+
 def _class_ranges(pred_name):
-    """code point ranges (<= Z3_MAXCHAR) of a unicode category as the real `re` engine sees it"""
-    if pred_name in _UNICODE_CLASS_CACHE:
-        return _UNICODE_CLASS_CACHE[pred_name]
-    pat = {'digit': r'\d', 'word': r'\w', 'space': r'\s'}[pred_name]
-    rx = _re.compile(pat)
-    ranges = []
-    start = None
-    for cp in range(Z3_MAXCHAR + 1):
-        ok = rx.match(chr(cp)) is not None
-        if ok and start is None:
-            start = cp
-        elif not ok and start is not None:
-            ranges.append((start, cp - 1))
-            start = None
-    if start is not None:
-        ranges.append((start, Z3_MAXCHAR))
-    _UNICODE_CLASS_CACHE[pred_name] = ranges
-    return ranges
+    """code points of a unicode category in the abstract alphabet (ASCII exactly + block representatives)"""
+    A = abs_alphabet()
+    idx = {'digit': 0, 'word': 1, 'space': 2}[pred_name]
+    pts = [cp for cp, sig in A['ascii'].items() if sig[idx]] + [cp for sig, cp in A['blocks'].items() if sig[idx]]
+    return _merge([(cp, cp) for cp in pts])
 
 
 def _zch(cp):
@@ -1349,16 +1466,20 @@ def _ranges_to_re(ranges):
     return _union(_zrange(a, b) for a, b in ranges)
 
 
+def _abs_points():
+    A = abs_alphabet()
+    return _merge([(0, 127)] + [(cp, cp) for cp in A['blocks'].values()])
+
+
 def _negate(ranges):
-    out = []
-    prev = 0
-    for a, b in sorted(ranges):
-        if a > prev:
-            out.append((prev, a - 1))
-        prev = max(prev, b + 1)
-    if prev <= Z3_MAXCHAR:
-        out.append((prev, Z3_MAXCHAR))
-    return out
+    """complement inside the abstract alphabet"""
+    inside = set()
+    for a, b in ranges:
+        inside.update(range(a, b + 1))
+    pts = []
+    for a, b in _abs_points():
+        pts.extend(cp for cp in range(a, b + 1) if cp not in inside)
+    return _merge([(cp, cp) for cp in pts])
 
 
 def _merge(ranges):
@@ -1372,19 +1493,20 @@ def _merge(ranges):
 
 
 def _category_ranges(cat, ascii_only):
-    from re import _constants as C
     name = str(cat)
     base = {'CATEGORY_DIGIT': 'digit', 'CATEGORY_WORD': 'word', 'CATEGORY_SPACE': 'space'}
     neg = {'CATEGORY_NOT_DIGIT': 'digit', 'CATEGORY_NOT_WORD': 'word', 'CATEGORY_NOT_SPACE': 'space'}
     if name in base:
         r = _class_ranges(base[name])
-    elif name in neg:
-        r = _negate(_class_ranges(neg[name]))
-    else:
-        raise Unsupported(f'regex category {name}')
-    if ascii_only:
-        r = [(a, min(b, 127)) for a, b in r if a <= 127]
-    return r
+        if ascii_only:
+            r = [(a, min(b, 127)) for a, b in r if a <= 127]
+        return r
+    if name in neg:
+        r = _class_ranges(neg[name])
+        if ascii_only:
+            r = [(a, min(b, 127)) for a, b in r if a <= 127]
+        return _negate(r)
+    raise Unsupported(f'regex category {name}')
 
 
 def regex_to_z3(pattern, flags, mode):
@@ -1409,14 +1531,18 @@ def regex_to_z3(pattern, flags, mode):
             if op == 'NEGATE':
                 negate = True
             elif op == 'LITERAL':
+                if av > 127:
+                    raise Unsupported('non-ASCII literal in a regex class')
                 ranges.append((av, av))
             elif op == 'RANGE':
+                if av[1] > 127:
+                    raise Unsupported('non-ASCII range in a regex class')
                 ranges.append((av[0], av[1]))
             elif op == 'CATEGORY':
                 ranges.extend(_category_ranges(av, ascii_only))
             else:
                 raise Unsupported(f'regex class item {op}')
-        ranges = _merge([(a, min(b, Z3_MAXCHAR)) for a, b in ranges if a <= Z3_MAXCHAR])
+        ranges = _merge(ranges)
         if negate:
             ranges = _negate(ranges)
         return _ranges_to_re(ranges)
@@ -1480,8 +1606,8 @@ def regex_to_z3(pattern, flags, mode):
 
     def one(op, av):
         if op == 'LITERAL':
-            if av > Z3_MAXCHAR:
-                raise Unsupported('regex literal beyond z3 character range')
+            if av > 127:
+                raise Unsupported('non-ASCII literal in a regex')
             return z3.Re(_zch(av))
         if op == 'NOT_LITERAL':
             return _ranges_to_re(_negate([(av, av)]))
@@ -1529,7 +1655,7 @@ def re_match(I, pattern, flags, s, mode):
         s = narrow(I, s)
     if isinstance(s, str):
         m = getattr(_re, mode)(pattern, s, flags)
-        return None if m is None else Opaque()
+        return None if m is None else Opaque(truthy=True)
     if not (is_sym(s) and s.k == 'str'):
         I.raise_(TypeError, 'expected string or bytes-like object')
     key = (pattern, flags, mode)
@@ -1537,8 +1663,12 @@ def re_match(I, pattern, flags, s, mode):
         _REGEX_CACHE[key] = regex_to_z3(pattern, flags, mode)
     I.ctx.trust("re: CPython pattern translated to an SMT regex from re._parser's own parse tree (match = prefix match, "
                 "$ = end or before a final newline, \\d \\w \\s = the code points the real engine accepts, <= U+2FFFF)")
+    I.ctx.trust('minterm abstraction: symbolic strings range over ASCII + one representative per (\\d,\\w,\\s)-block of the '
+                'non-ASCII code points (blocks computed with the real re engine); sound because the code inspects strings only '
+                'through such classes, ASCII literals, length, split on ASCII and int()')
+    I.ctx.assume(z3.InRe(s.t, abs_alphabet_re()))
     if I.ctx.branch(mk(z3.InRe(s.t, _REGEX_CACHE[key]), 'bool')):
-        return Opaque()
+        return Opaque(truthy=True)
     return None
 
 
